@@ -231,6 +231,8 @@ class ConcatSignal(Module):
         dx = _split_from_array(dy, self.cumlens)
         for i, s in enumerate(self.sig_in):
             dxi = dx[i].reshape(np.shape(s.state))
+            if np.isrealobj(s.state):  # Real-valued input in a complex concatenation
+                dxi = np.real(dxi)
             if not isinstance(dsens[i], type(s.state)):
                 dsens[i] = type(s.state)(dxi)
                 continue
